@@ -19,6 +19,7 @@ from . import REPO, VERIF
 EPISODE_TIMEOUT = 90
 REAL_FORK = os.fork        # lanes trap os.fork; oracles that need a fresh process use this
 MAX_SHRINK = 6
+MAX_REPORT = 12      # signatures that get a replay file + fresh-process verification per run
 LANES = int(os.environ.get("PPSIM_LANES", "16"))
 
 
@@ -577,11 +578,15 @@ def _run_check(prop, tier, verif_seed, master, module, lanes, n_total, wall_cap,
     exit_code = 0
     known_seen, new_violations = [], []
     pending = []
+    overflow = []
     for sig, outs in by_sig.items():
         if sig in known_open:
             known_seen.append(sig)
             print(f"KNOWN-FINDING: property={prop} {known_open[sig]['what']} [signature {sig}; "
                   f"{len(outs)} episode(s)]")
+            continue
+        if len(pending) >= MAX_REPORT:
+            overflow.append(sig)
             continue
         o = min(outs, key=lambda o: len(o["ep"]["ops"]))
         nruns = 0
@@ -605,6 +610,10 @@ def _run_check(prop, tier, verif_seed, master, module, lanes, n_total, wall_cap,
         print(f"  signature: {sig}\n  episodes: {len(outs)} (first idx {outs[0]['idx']}), minimised to "
               f"{len(small['ops'])} ops in {nruns} runs\n  detail: {detail}")
         new_violations.append({"signature": sig, "replay": path, "episodes": len(outs), "detail": detail})
+        exit_code = max(exit_code, 1)
+    if overflow:
+        print(f"NOTE {len(overflow)} further violation signature(s) were seen but not minimised/replayed in this run "
+              f"(cap {MAX_REPORT}): " + "; ".join(overflow[:20]))
         exit_code = max(exit_code, 1)
     if harness_errors:
         for o in harness_errors[:5]:
